@@ -45,8 +45,12 @@ FINISH = dict(level="proof",
                    "at least 2 folds and n not divisible by k or by the batch size; distinct = distinct op text")
 
 LAKE_TARGETS = ["SharkVerif.Props.C12", "drv_c12"]
-TYPES = [("uint", []), ("real", ["3"]), ("sparse", ["7"]), ("blob", [])]
-RNG_OPS = "iid,samesize,balanced,batch"
+# (name, harness input type, label type, driver arguments)
+TYPES = [("uint", "uint", "cls", []), ("real", "real", "cls", ["3"]), ("sparse", "sparse", "cls", ["7"]), ("blob", "blob", "cls", []),
+         ("real-reg", "real", "reg", ["3"]), ("sparse-reg", "sparse", "reg", ["7"])]
+TYPES_THOROUGH = [("uint-reg", "uint", "reg", []), ("blob-reg", "blob", "reg", [])]
+RNG_OPS = "iid,samesize,balanced,batch,again,nest"
+FN_NUM = {"indexed": 0, "fully": 1, "iid": 2, "samesize": 3, "balanced": 4, "batch": 5}
 
 
 def translate(ctx):
@@ -54,57 +58,135 @@ def translate(ctx):
 
 
 def build(ctx):
-    return ctx.harness("c12", ["c12.cpp"], repo_sources=["src/Core/Random.cpp"])
+    """two binaries (class labels / regression labels), compiled side by side"""
+    from concurrent.futures import ThreadPoolExecutor
+    with ThreadPoolExecutor(max_workers=2) as ex:
+        a = ex.submit(ctx.harness, "c12", ["c12.cpp"], repo_sources=["src/Core/Random.cpp"])
+        b = ex.submit(ctx.harness, "c12reg", ["c12.cpp"], flags=["-DC12_REG"], repo_sources=["src/Core/Random.cpp"])
+        a, b = a.result(), b.result()
+    return {"cls": a, "reg": b} if a and b else None
 
 
-def labels_for(r, n, k):
-    style = r.below(6)
+def labels_for(ctx, r, n, k):
+    style = r.below(7)
+    ctx.hist("label_style", ["one-class", "binary", "multi", "classes-smaller-than-folds", "absent-class", "absent-classes-0-2", "sorted"][style])
     if style == 0: pool = [0]
     elif style == 1: pool = [0, 1]
     elif style == 2: pool = list(range(r.range(2, 5)))
     elif style == 3: pool = [0, 0, 0, 0, 0, 1, 2]          # classes smaller than the fold count
     elif style == 4: pool = [0, 2]                         # absent class
-    else: pool = [1, 3, 4]
+    elif style == 5: pool = [1, 3, 4]
+    else: return sorted(r.below(3) for _ in range(n))
     return [r.choice(pool) for _ in range(n)]
 
 
-def gen_op(ctx, r):
+def ceil_batches(size, bs):
+    return 0 if size == 0 else (1 if bs == 0 else (size + bs - 1) // bs)
+
+
+def gen_ctor(ctx, r):
+    """-> (op line, number of batches of folds.dataset() if the generator can know it else a guess, n)"""
     n = r.choice([1, 2, 3, 4, 5, 6, 7, 9, 10, 12, 16, 17, 24, 25, r.range(1, 60), r.range(1, 60)])
     k = r.choice([1, 2, 3, min(n, 5), n, r.range(1, n), r.range(1, n)])
     k = max(1, min(k, n))
-    bs = r.choice([1, 2, 3, 4, n, n + 1, r.range(1, n + 2)])
+    bs = r.choice([0, 1, 1, 2, 3, 4, n, n + 1, r.range(1, n + 2), r.range(1, n + 2)])
     m0 = r.choice([0, 1, 2, 3, n, r.range(1, n + 1)])
-    labels = labels_for(r, n, k)
+    labels = labels_for(ctx, r, n, k)
     fn = r.choice(["indexed", "indexed", "fully", "iid", "samesize", "samesize", "balanced", "balanced", "batch"])
     seed = r.below(1000000)
     L = " ".join(map(str, labels))
     ctx.hist("function", fn); ctx.hist("n", min(n // 10 * 10, 60)); ctx.hist("folds", min(k, 10))
-    ctx.hist("n_mod_k", "divides" if n % k == 0 else "remainder"); ctx.hist("batch_size_rel", "1" if bs == 1 else ("<n" if bs < n else ">=n"))
+    ctx.hist("folds_class", "1" if k == 1 else ("n" if k == n else "between"))
+    ctx.hist("n_mod_k", "divides" if n % k == 0 else "remainder")
+    ctx.hist("batch_size_rel", "0=unlimited" if bs == 0 else "1" if bs == 1 else ("<fold" if bs < max(1, n // k) else "<n" if bs < n else ">=n"))
+    ctx.hist("initial_batching", "default" if m0 == 0 else "1" if m0 == 1 else "<n" if m0 < n else ">=n")
+    if bs and n // k > bs and (n // k) % ((n // k + bs - 1) // bs): ctx.count("fold_of_several_unequal_batches")
+    same = [n // k + (1 if i < n % k else 0) for i in range(k)]
     if fn == "indexed":
-        style = r.below(4)
+        style = r.below(5)
         if style == 0: idx = [i % k for i in range(n)]
         elif style == 1: idx = [r.below(k) for _ in range(n)]
         elif style == 2: idx = sorted(r.below(k) for _ in range(n))
+        elif style == 3: idx = [k - 1] * n                      # everything in the last fold, all others empty
         else:
             idx = [r.below(k) for _ in range(n)]
             if k >= 2:
                 gap = r.below(k)                                  # a fold that receives no element
                 idx = [x if x != gap else (x + 1) % k for x in idx]
-                ctx.count("indexed_with_empty_fold")
-        return f"indexed {k} {bs} {m0} {n} {L} " + " ".join(map(str, idx))
+        if len(set(idx)) < k: ctx.count("indexed_with_empty_fold")
+        nb = sum(ceil_batches(idx.count(p), bs) for p in range(k))
+        return f"indexed {k} {bs} {m0} {n} {L} " + " ".join(map(str, idx)), nb, n
     if fn == "fully":
         order = list(range(n))
         for i in range(n - 1, 0, -1):
             j = r.below(i + 1); order[i], order[j] = order[j], order[i]
         part = [r.below(k) for _ in range(n)]
-        return f"fully {k} {bs} {m0} {n} {L} " + " ".join(map(str, order)) + " " + " ".join(map(str, part))
+        if len(set(part)) < k: ctx.count("indexed_with_empty_fold")
+        nb = sum(ceil_batches(part.count(p), bs) for p in range(k))
+        return f"fully {k} {bs} {m0} {n} {L} " + " ".join(map(str, order)) + " " + " ".join(map(str, part)), nb, n
     if fn == "batch":
-        return f"batch {k} 0 {m0} {n} {seed} {L}"
-    return f"{fn} {k} {bs} {m0} {n} {seed} {L}"
+        nb = ceil_batches(n, 256 if m0 == 0 else m0)
+        ctx.hist("createCVBatch_batches_vs_folds", "fewer" if nb < k else "equal" if nb == k else "more")
+        return f"batch {k} 0 {m0} {n} {seed} {L}", nb, n
+    nb = sum(ceil_batches(x, bs) for x in same) if fn != "iid" else max(1, r.range(1, k + 1))
+    return f"{fn} {k} {bs} {m0} {n} {seed} {L}", nb, n
+
+
+def gen_follow(ctx, r, nb, n):
+    """one follow-up line on the state; nb = (guessed) number of batches of the current folds' dataset"""
+    kind = r.choice(["show", "prev", "copy", "starts", "starts", "sets", "sets", "wsets", "wstarts", "again", "again", "nest", "nest", "nest"])
+    ctx.hist("follow_up", kind)
+    if kind in ("show", "prev", "copy"):
+        return kind, nb
+    if kind in ("starts", "wstarts"):
+        m = r.range(1, min(nb, 4) + 1)
+        st = sorted(r.below(nb + 1) for _ in range(m))
+        if r.below(4): st[0] = 0
+        ctx.hist("starts_first", "0" if st[0] == 0 else ">0")
+        if len(set(st)) < len(st): ctx.count("starts_with_fold_without_batch")
+        return kind + " " + " ".join(map(str, st)), nb
+    if kind in ("sets", "wsets"):
+        m = r.range(1, 4)
+        style = r.below(5)
+        idx = list(range(nb))
+        for i in range(nb - 1, 0, -1):
+            j = r.below(i + 1); idx[i], idx[j] = idx[j], idx[i]           # unsorted on purpose
+        sets = [[] for _ in range(m)]
+        for b in idx: sets[r.below(m)].append(b)
+        if style == 0 and nb: sets[r.below(m)].append(r.below(nb))          # overlap / repetition: not a partition
+        if style == 1 and nb: sets[r.below(m)] = []                         # a fold without batch (and maybe batches in no fold)
+        if style == 2: sets = [sorted(s, reverse=True) for s in sets]       # descending
+        ctx.hist("index_sets", ["overlap", "emptied", "descending", "shuffled", "shuffled"][style])
+        if any(s != sorted(s) for s in sets): ctx.count("unsorted_index_set")
+        return kind + f" {m} " + " ".join(f"{len(s)} " + " ".join(map(str, s)) for s in sets).replace("  ", " ").strip(), nb
+    fn = r.choice(["indexed", "fully", "iid", "samesize", "balanced", "batch"])
+    k = r.choice([1, 2, 2, 3, 4, r.range(1, max(2, n // 2 + 1))])
+    bs = r.choice([0, 1, 2, 3, r.range(1, n + 2)])
+    tail = f"{FN_NUM[fn]} {k} {bs} {r.below(1000000)} {r.range(1, 8)} {r.below(8)}"
+    ctx.hist("second_construction", fn)
+    if kind == "again":
+        return "again " + tail, max(1, r.range(1, k + 2))
+    w = 0 if r.below(3) else 1
+    ctx.hist("nested_on", "training" if w == 0 else "validation")
+    return f"nest {w} {r.below(3)} " + tail, max(1, r.range(1, k + 2))
+
+
+def gen_case(ctx, r):
+    op, nb, n = gen_ctor(ctx, r)
+    if r.below(3):
+        return [op]
+    lines = ["new", op]
+    steps = r.range(1, 5)
+    ctx.hist("history_length", steps)
+    for _ in range(steps):
+        l, nb = gen_follow(ctx, r, nb, n)
+        lines.append(l)
+    return lines
 
 
 def nontrivial(op):
     t = op.split()
+    if t[0] not in FN_NUM: return False
     k, bs, n = int(t[1]), int(t[2]), int(t[4])
     return k >= 2 and (n % k != 0 or (bs and n % bs != 0))
 
@@ -114,59 +196,66 @@ def run(ctx):
                     "correspondence harness harness/c12.cpp + generator checks/c12.py + tools/obsfeed.py (feeds observed RNG draws to the model)",
                     "hand-written model Model/CV.lean, Model/Dataset.lean",
                     "ASan/UBSan runtime for the real code's memory safety (not a theorem)"]
-    ctx.assumptions += ["1 <= folds, 1 <= maximum batch size, fold indices < folds, order vectors index existing elements",
-                        "std::shuffle / random::discrete are treated as arbitrary: the theorems hold for every permutation / draw"]
+    ctx.assumptions += ["1 <= folds, fold indices < folds, order vectors index existing elements; maximum batch size 0 = unlimited",
+                        "std::shuffle / random::discrete are treated as arbitrary: the theorems hold for every permutation / draw",
+                        "subsets are made independent before they are repartitioned (documented precondition: SharedContainer::repartition throws otherwise)"]
     translate(ctx)
     ctx.prove(["SharkVerif.Props.C12"])
     if not ctx.quick:
         ctx.leanchecker(["SharkVerif.Props.C12"])
-    exe = build(ctx)
+    exes = build(ctx)
     drv = ctx.driver("drv_c12")
-    if not exe or not drv:
+    if not exes or not drv:
         return
     r = ctx.rng.fork("c12")
     cases = dsgen.load_corpus("C12")
     ctx.cov["corpus_cases"] = len(cases)
-    nrand = 3000 if ctx.quick else 12000
+    nrand = 2500 if ctx.quick else 10000
     nrand = int(os.environ.get('VERIF_NCASES', nrand))            # self-tests: fewer random calls
-    cases += [[gen_op(ctx, r)] for _ in range(nrand)]
+    cases += [gen_case(ctx, r) for _ in range(nrand)]
     if not ctx.quick:
-        # all (n, k, batch size) triples with n <= 24
+        # all (n, k, batch size) triples with n <= 30
         for n in range(1, 31):
             for k in range(1, n + 1):
-                for bs in sorted({1, 2, 3, 5, n // 2 + 1, n, n + 1}):
+                for bs in sorted({0, 1, 2, 3, 5, n // 2 + 1, n, n + 1}):
                     L = " ".join(str((i * 7 + i // 3) % 3) for i in range(n))
                     cases.append([f"samesize {k} {bs} 0 {n} {n * 31 + k} {L}"])
                     cases.append([f"balanced {k} {bs} 3 {n} {n * 17 + k} {L}"])
                     cases.append([f"indexed {k} {bs} 2 {n} {L} " + " ".join(str(i % k) for i in range(n))])
         ctx.cov["exhaustive_triples_n_le_30"] = True
-    ctx.cov["evaluations"] = len(cases) * len(TYPES)
-    ctx.cov["distinct_nontrivial"] = len({c[0] for c in cases if nontrivial(c[0])})
-    ctx.sample({"ops": [c[0] for c in cases[len(cases) // 2: len(cases) // 2 + 4]]})
+    ctx.cov["evaluations"] = sum(len(c) for c in cases) * len(TYPES)
+    ctx.cov["distinct_nontrivial"] = len({l for c in cases for l in c if nontrivial(l)})
+    ctx.cov["histories_with_follow_up_ops"] = sum(1 for c in cases if len(c) > 1)
+    ctx.sample({"ops": [c for c in cases[len(cases) // 2: len(cases) // 2 + 3]]})
     feed = os.path.join(core.VERIF, "tools", "obsfeed.py")
     def one(t):
-        ty, shape = t
-        hcmd = [exe, ty]
-        dcmd = [sys.executable, feed, RNG_OPS, exe, ty, "--", drv, *shape]
-        return core.correspond(ctx, f"K-C12[{ty}]", cases, hcmd, dcmd, classify, keep_prefix=0, env=dsgen.ASAN_ENV, timeout=900 if ctx.quick else 3600)
-    dsgen.run_types(one, dsgen.types(TYPES, 'VERIF_C12_TYPES'))
+        name, ty, lt, shape = t
+        hcmd = [exes[lt], ty, lt]
+        dcmd = [sys.executable, feed, RNG_OPS, exes[lt], ty, lt, "--", drv, lt, *shape]
+        return core.correspond(ctx, f"K-C12[{name}]", cases, hcmd, dcmd, classify, keep_prefix=1, env=dsgen.ASAN_ENV, timeout=900 if ctx.quick else 3600)
+    dsgen.run_types(one, dsgen.types(TYPES + ([] if ctx.quick else TYPES_THOROUGH), 'VERIF_C12_TYPES'))
 
 
 def classify(ops, res):
     key, what = dsgen.classify(ops, res)
-    fn = ops[0].split()[0] if ops else "?"
+    fn = next((o.split()[0] for o in ops if o.split()[0] in FN_NUM), ops[0].split()[0] if ops else "?")
+    if key.startswith("oracle:") and "weighted-folds-training-does-not-compile" in key:
+        return ("F-C12-1:cvfolds-weighted-training-does-not-compile",
+                "CVFolds<WeightedLabeledData<I,L>>::training / validation cannot be instantiated: BaseWeightedDataset::indexedSubset returns the base class")
     if key.startswith("oracle:") and "shape-lost" in key:
         return f"F11:shape-lost:{fn}", f"{fn}: the reorganised dataset / its folds lost the input shape; ops {ops}"
     return key, what
 
 
 def replay(ctx, rep):
-    exe = build(ctx); drv = ctx.driver("drv_c12")
-    cmd = list(rep.get("harness_cmd", [exe, "uint"])); cmd[0] = exe
+    exes = build(ctx); drv = ctx.driver("drv_c12")
+    cmd = list(rep.get("harness_cmd", [exes["cls"], "uint", "cls"]))
     ty = cmd[1] if len(cmd) > 1 else "uint"
-    shape = dict(TYPES).get(ty, [])
+    lt = cmd[2] if len(cmd) > 2 else "cls"
+    cmd = [exes[lt], ty, lt]
+    shape = {"real": ["3"], "sparse": ["7"]}.get(ty, [])
     feed = os.path.join(core.VERIF, "tools", "obsfeed.py")
-    dcmd = [sys.executable, feed, RNG_OPS, exe, ty, "--", drv, *shape]
+    dcmd = [sys.executable, feed, RNG_OPS, exes[lt], ty, lt, "--", drv, lt, *shape]
     res = core.run_case(ctx, cmd, dcmd, rep["ops"])
     for i in range(max(len(res.impl), len(res.model))):
         a = res.impl[i] if i < len(res.impl) else "<no output>"
